@@ -62,6 +62,9 @@ pub struct Checker {
     absent_prev: [bool; 2],
     established: [bool; 2],
     frames_seen: usize,
+    /// at the end of the previous step: side's connection task had taken a Reset for the stream's flow out of its
+    /// socket (black box: the peer's answer to a frame on a flow it has let go of is the only abort signal there is)
+    reset_taken_prev: [bool; 2],
 }
 
 pub fn push_viol(v: &mut Vec<(String, String)>, key: &str, desc: String) {
@@ -72,7 +75,7 @@ pub fn push_viol(v: &mut Vec<(String, String)>, key: &str, desc: String) {
 
 impl Checker {
     pub fn new(tag: u8) -> Self {
-        Self { tag, conn_end: None, solo: true, mon: WireMon::new(), seen_events: 0, violations: Vec::new(), witnesses: 0, fps: Vec::new(), absent_prev: [true, true], established: [false, false], frames_seen: 0 }
+        Self { tag, conn_end: None, solo: true, mon: WireMon::new(), seen_events: 0, violations: Vec::new(), witnesses: 0, fps: Vec::new(), absent_prev: [true, true], established: [false, false], frames_seen: 0, reset_taken_prev: [false, false] }
     }
 
     pub fn after_step(&mut self, w: &World, step: &Step, item: Option<&crate::link::Item>) {
@@ -161,8 +164,12 @@ impl Checker {
                                     format!("a write of {n} bytes on direction {dir} succeeded although the local endpoint had already processed the peer's abort (flow gone from the table)"),
                                 );
                             }
-                            if *n > 0 && own_shutdown {
-                                // counted above
+                            if *n > 0 && self.reset_taken_prev[me] && !(self.absent_prev[me] && self.established[me]) {
+                                push_viol(
+                                    &mut self.violations,
+                                    "write.after-peer-reset",
+                                    format!("a write of {n} bytes on direction {dir} succeeded although the local connection task had already taken the peer's Reset for this flow out of its socket (in an earlier step): the peer has let go of the stream, the write goes nowhere"),
+                                );
                             }
                             if *n > 0 && before.iter().any(|x| matches!(x, Ev::Shutdown { dir: d, res: Ok(()), .. } if *d == 1 - *dir)) {
                                 self.witnesses |= W_HALF_CLOSE_DATA;
@@ -205,6 +212,19 @@ impl Checker {
                 self.witnesses |= W_RESET;
             }
             self.frames_seen += 1;
+        }
+        // Resets taken in by either side so far (for the next step's writes)
+        {
+            let l = w.sim.link.lock();
+            self.mon.absorb_consumed(&l);
+        }
+        for side in 0..2 {
+            if let Some(fid) = obs.flow_ids.get(&(self.tag, side)).copied() {
+                // consumed_log holds (direction = sender's side, frame): taken in by the other side
+                if self.mon.consumed_log.iter().any(|(d, f)| *d == 1 - side && matches!(f, crate::codec::RFrame::Reset { id } if *id == fid)) {
+                    self.reset_taken_prev[side] = true;
+                }
+            }
         }
         // flow presence (white box) for the write-after-abort rule
         let mut h = Fnv::default();
